@@ -120,6 +120,18 @@ void complete(int reqid, const SimItem &it, const std::vector<char> &pay, MPI_St
 }
 }  // namespace
 
+// inclusive scan = exclusive scan of the lower ranks (undefined on rank 0: no payload in the reply) combined with the own value
+template <typename T> static void scan_combine(T *acc, const T *x, int n, int op) {
+  for (int i = 0; i < n; ++i) {
+    switch (op) {
+      case MPI_SUM: acc[i] = (T)(acc[i] + x[i]); break;
+      case MPI_MIN: acc[i] = x[i] < acc[i] ? x[i] : acc[i]; break;
+      case MPI_MAX: acc[i] = x[i] > acc[i] ? x[i] : acc[i]; break;
+      case MPI_LAND: acc[i] = (T)(acc[i] && x[i]); break;
+      case MPI_LOR: acc[i] = (T)(acc[i] || x[i]); break;
+    }
+  }
+}
 extern "C" {
 
 uint64_t simmpi_step(void) { return g_step; }
@@ -244,6 +256,31 @@ int MPI_Allreduce(const void *sb, void *rb, int count, MPI_Datatype dt, MPI_Op o
 }
 int MPI_Exscan(const void *sb, void *rb, int count, MPI_Datatype dt, MPI_Op op, MPI_Comm c) {
   return coll(OP_EXSCAN, "EXSCAN", sb, rb, count, dt, op, c);
+}
+int MPI_Scan(const void *sb, void *rb, int count, MPI_Datatype dt, MPI_Op op, MPI_Comm c) {
+  const int kind = dt >> 8, sz = dt & 0xff;
+  const size_t bytes = (size_t)count * (size_t)sz;
+  std::vector<char> marker(bytes, (char)0x5a), ex(marker);
+  int err = MPI_Exscan(sb, ex.data(), count, dt, op, c);
+  int me = 0;
+  MPI_Comm_rank(c, &me);
+  if (me == 0) { memcpy(rb, sb, bytes); return err; }
+#define SC(T) scan_combine<T>((T *)ex.data(), (const T *)sb, count, op)
+  if (kind == 4) SC(bool);
+  else if (kind == 3 && sz == 4) SC(float);
+  else if (kind == 3 && sz == 8) SC(double);
+  else if (kind == 3 && sz == 16) SC(long double);
+  else if ((kind == 1 || kind == 0) && sz == 1) SC(int8_t);
+  else if (kind == 1 && sz == 2) SC(int16_t);
+  else if (kind == 1 && sz == 4) SC(int32_t);
+  else if (kind == 1 && sz == 8) SC(int64_t);
+  else if (kind == 2 && sz == 1) SC(uint8_t);
+  else if (kind == 2 && sz == 2) SC(uint16_t);
+  else if (kind == 2 && sz == 4) SC(uint32_t);
+  else if (kind == 2 && sz == 8) SC(uint64_t);
+#undef SC
+  memcpy(rb, ex.data(), bytes);
+  return err;
 }
 int MPI_Iallreduce(const void *sb, void *rb, int count, MPI_Datatype dt, MPI_Op op, MPI_Comm c, MPI_Request *req) {
   SimReq r = mk(OP_IALLREDUCE, c);
